@@ -109,3 +109,38 @@ R.register('cav_ptr_refetch', replay_cav_ptr_refetch)
 R.register('cav_string', replay_cav_string)
 R.register('cav_content', replay_cav_content)
 R.register('deny_access', replay_deny_access)
+
+
+# ---- C16: numeric operators replayed natively with the counterexample's operand values
+GUEST_T = {'long': 'int32_t', 'unsigned long': 'uint32_t'}
+
+
+def _operand(kind, t, var, val):
+    if kind == 'plain':
+        return '  %s %s = %s;\n' % (t, var, R._lit(val, t))
+    if kind == 'tainted':
+        return '  tainted<%s, vsbx> %s; { %s v = %s; std::memcpy(&%s, &v, sizeof(v)); }\n' % (t, var, t, R._lit(val, t), var)
+    g = GUEST_T.get(t, t)
+    return ('  alignas(8) static unsigned char cell_%s[8]; { %s v = %s; std::memcpy(cell_%s, &v, sizeof(v)); }\n'
+            '  auto& %s = *reinterpret_cast<tainted_volatile<%s, vsbx>*>(cell_%s);\n' % (var, g, R._lit(val, g), var, var, t, var))
+
+
+def replay_numeric_op(spec, vals, obligation, desc):
+    op, lk, ta, rk, tb = spec['op'], spec['lk'], spec['ta'], spec['rk'], spec['tb']
+    if any(t in ('float', 'double') for t in (ta, tb)):
+        raise ValueError('floating-point operands are not replayed')
+    va, vb = R._int(vals, 'in_a'), R._int(vals, 'in_b')
+    body = R.PRE + 'template<class T> static auto raw(const T& r) { if constexpr (std::is_same_v<T, tainted_boolean_hint>) return r.unverified_safe_because("replay"); else return r.UNSAFE_unverified(); }\n'
+    body += 'int main(){\n' + _operand(lk, ta, 'a', va) + _operand(rk, tb, 'b', vb)
+    body += ('  %s pa = raw(a); %s pb = %s;\n  auto expect = pa %s pb; int aborted = 0;\n'
+             '  try { auto r = a %s b; auto got = raw(r);\n'
+             '    std::printf("same_type=%%d\\n", (int)std::is_same_v<decltype(got), decltype(expect)>); pr("expect", (mathint)expect); pr("got", (mathint)got);\n'
+             '    std::printf("same_value=%%d\\n", (int)(got == expect)); } catch (const std::runtime_error&) { aborted = 1; }\n'
+             '  std::printf("aborted=%%d\\n", aborted); return 0; }\n' % (ta, tb, 'b' if rk == 'plain' else 'raw(b)', op, op))
+
+    def judge(d):
+        return d.get('aborted') == '1' or d.get('same_value') == '0' or d.get('same_type') == '0'
+    return body, judge
+
+
+R.register('numeric_op', replay_numeric_op)
